@@ -61,6 +61,7 @@ def _worker(args):
             core.STATS[k] = 0
         funcs = set()
         state = {"first": True}
+        kept = []
 
         def prof(frame, event, arg):
             if event == "call":
@@ -133,6 +134,9 @@ def _worker(args):
                 for k, v in sx.reached.items():
                     out["reached"][k] = out["reached"].get(k, 0) + v
                 out["sched_picks"] += getattr(sx, "schedule_picks", 0)
+            if sx is not None and getattr(sx, "keep", None) is not None and st == "ok":
+                kept.append({"keep": sx.keep, "cons": list(ctx.cons), "forks": [int(t[0]) for t in ctx.trail if t[2]],
+                             "ctx": ctx})
             if len(out["samples"]) < 3:
                 obs = [{k: ob[k] for k in ("label", "verdict", "smt") if k in ob} for ob in ctx.obligations]
                 out["samples"].append({
@@ -147,6 +151,8 @@ def _worker(args):
         summ = core.explore(run, on_path, max_paths=job.get("max_paths", 20000),
                             timeout_ms=job.get("timeout_ms"), deadline=deadline)
         out["truncated"] = summ["truncated"]
+        if hasattr(mod, "post_job"):
+            mod.post_job(job, kept, out)
         out["functions"] = sorted(funcs)
         out["stats"] = dict(core.STATS)
         out["stubs"] = list(shims.STUBS) + list(meta.get("stubs", []))
@@ -280,7 +286,8 @@ def run_check(prop, tier, seed, nproc=None):
         reproduced = None
         tried = 0
         for r, v in lst[:4]:
-            rp = {"property": prop, "harness": modname, "job": r["job"], "fn": r["fn"], "params": r["params"],
+            rp = {"property": prop, "harness": modname, "job": r["job"], "fn": r["fn"],
+                  "params": v.get("params") or r["params"],
                   "model": v["model"], "label": v["label"], "key": key, "info": v.get("info"),
                   "decisions": v["decisions"]}
             h = hashlib.sha1(json.dumps(rp, sort_keys=True).encode()).hexdigest()[:12]
